@@ -1,3 +1,4 @@
 pub mod mserver;
 pub mod proxy;
 pub mod replicas;
+pub mod store;
